@@ -12,10 +12,7 @@ import (
 	"go/ast"
 	"io"
 	"math/rand"
-	"sort"
 	"strings"
-
-	"github.com/cespare/xxhash/v2"
 
 	"github.com/thanos-io/thanos/pkg/store/storepb"
 	"github.com/thanos-io/thanos/zzverif/common"
@@ -54,6 +51,68 @@ func facts(repo string, w io.Writer) error {
 	}
 	fmt.Fprintf(w, "(* pkg/store/proxy.go ProxyStore.Series: `if %s { break }` after i++ *)\n", s.ExprString(cond))
 	fmt.Fprintf(w, "Definition limit_break (limit i : Z) : bool :=\n  %s.\n", e)
+	return ringFacts(repo, w)
+}
+
+// ringFacts translates the one-line index computations of the lazy response set's ring
+// buffer (pkg/store/proxy_merge.go) for the interleaving proof Proofs/C03_Ring.v.
+func ringFacts(repo string, w io.Writer) error {
+	s, err := common.ParseSrc(repo, "pkg/store/proxy_merge.go")
+	if err != nil {
+		return err
+	}
+	consts := map[string]string{"rb.ringHead": "ringHead", "rb.ringTail": "ringTail", "rb.fixedBufferSize": "fixedBufferSize"}
+	ret := func(fn string) (ast.Expr, error) {
+		fd, err := s.FindFunc(fn)
+		if err != nil {
+			return nil, err
+		}
+		if len(fd.Body.List) == 1 {
+			if r, ok := fd.Body.List[0].(*ast.ReturnStmt); ok && len(r.Results) == 1 {
+				return r.Results[0], nil
+			}
+		}
+		return nil, fmt.Errorf("srcfacts: pkg/store/proxy_merge.go: %s is no longer a single return statement", fn)
+	}
+	assign := func(fn, field string) (ast.Expr, error) {
+		fd, err := s.FindFunc(fn)
+		if err != nil {
+			return nil, err
+		}
+		var found ast.Expr
+		ast.Inspect(fd.Body, func(n ast.Node) bool {
+			if as, ok := n.(*ast.AssignStmt); ok && found == nil && len(as.Lhs) == 1 && len(as.Rhs) == 1 {
+				if se, ok := as.Lhs[0].(*ast.SelectorExpr); ok && se.Sel.Name == field {
+					found = as.Rhs[0]
+				}
+			}
+			return true
+		})
+		if found == nil {
+			return nil, fmt.Errorf("srcfacts: pkg/store/proxy_merge.go: %s: no assignment to rb.%s", fn, field)
+		}
+		return found, nil
+	}
+	for _, d := range []struct {
+		name, params, typ string
+		get               func() (ast.Expr, error)
+	}{
+		{"ring_is_empty", "(ringHead ringTail : Z)", "bool", func() (ast.Expr, error) { return ret("ringBuffer.isEmpty") }},
+		{"ring_is_full", "(ringHead ringTail fixedBufferSize : Z)", "bool", func() (ast.Expr, error) { return ret("ringBuffer.isFull") }},
+		{"ring_next_tail", "(ringTail fixedBufferSize : Z)", "Z", func() (ast.Expr, error) { return assign("ringBuffer.append", "ringTail") }},
+		{"ring_next_head", "(ringHead fixedBufferSize : Z)", "Z", func() (ast.Expr, error) { return assign("ringBuffer.pop", "ringHead") }},
+	} {
+		e, err := d.get()
+		if err != nil {
+			return err
+		}
+		t, err := s.TranslateExpr(e, consts, nil)
+		if err != nil {
+			return err
+		}
+		fmt.Fprintf(w, "(* pkg/store/proxy_merge.go ringBuffer: `%s` *)\n", s.ExprString(e))
+		fmt.Fprintf(w, "Definition %s %s : %s :=\n  %s.\n", d.name, d.params, d.typ, t)
+	}
 	return nil
 }
 
@@ -122,14 +181,14 @@ func run(raw json.RawMessage) (common.Case, error) {
 			for _, s := range ss {
 				nSeries++
 				l := s[:strings.Index(s, "|")]
-				if !first && l == prev && sortedInput(in) {
+				if !first && l == prev && pu.SortedInput(in) {
 					c.GoPred = "label set listed twice in the response"
 					c.Sig = "series-twice"
 				}
 				prev, first = l, false
 			}
 		}
-		if c.GoPred == "" && sortedInput(in) {
+		if c.GoPred == "" && pu.SortedInput(in) {
 			for _, f := range res.Frames {
 				var sers []*seriesT
 				if f.GetSeries() != nil {
@@ -171,217 +230,10 @@ type seriesT struct {
 	chunks []storepb.AggrChunk
 }
 
-// ---- generator ----
-
-type uSeries struct {
-	labels []pu.Lbl // without replica label
-	chunks []pu.ChunkIn
-}
-
-func mkRaw(id int, min, max int64, explicitHash bool) pu.ChunkIn {
-	data := []byte{byte(1 + id%250), byte(id / 250)}
-	f := &pu.FieldIn{Type: 1, Data: data}
-	if explicitHash {
-		f.Hash = xxhash.Sum64(data)
-	}
-	var c pu.ChunkIn
-	c.Min, c.Max = min, max
-	c.Fields[0] = f
-	return c
-}
-
-func mkAggr(id int, min, max int64, nf int) pu.ChunkIn {
-	var c pu.ChunkIn
-	c.Min, c.Max = min, max
-	for k := 0; k < nf && k < 5; k++ {
-		c.Fields[1+k] = &pu.FieldIn{Type: 1, Data: []byte{byte(1 + id%250), byte(id / 250), byte(10 + k)}}
-	}
-	return c
-}
-
-func sortedInput(in pu.Input) bool {
-	wrl := len(in.WRL) > 0
-	for _, s := range in.Stores {
-		if !in.Lazy || (!s.Supports && wrl) {
-			continue
-		}
-		var prev string
-		first := true
-		for _, f := range s.Frames {
-			for _, se := range f.Series {
-				k := labelsKey(se.Labels)
-				if !first && k < prev {
-					return false
-				}
-				prev, first = k, false
-			}
-		}
-	}
-	return true
-}
-
-// labelsKey orders label sets like labels.Compare for the generator's alphabet
-// (names and values without bytes below 0x02).
-func labelsKey(ls []pu.Lbl) string {
-	cp := append([]pu.Lbl(nil), ls...)
-	sort.Slice(cp, func(i, j int) bool { return cp[i][0] < cp[j][0] })
-	var sb strings.Builder
-	for _, l := range cp {
-		sb.WriteString(l[0])
-		sb.WriteByte(1)
-		sb.WriteString(l[1])
-		sb.WriteByte(1)
-	}
-	return sb.String()
-}
-
 func gen(r *rand.Rand, tier string, n int) []any {
 	var out []any
-	big := tier == "thorough"
 	for i := 0; i < n; i++ {
-		var in pu.Input
-		in.Lazy = r.Intn(2) == 0
-		in.Buf = common.Pick(r, 0, 1, 1, 2, 3, 20)
-		in.Batch = common.Pick(r, int64(0), 1, 2, 3, 5, 64)
-		if r.Intn(5) == 0 {
-			in.Limit = common.Between(r, 1, 6)
-		}
-		if r.Intn(3) == 0 {
-			in.Jitter = 1 + r.Intn(1000)
-		}
-		useReplica := r.Intn(2) == 0
-		if useReplica && r.Intn(4) != 0 {
-			in.WRL = []string{"r"}
-		}
-		// universe of series
-		nU := 1 + r.Intn(6)
-		if big {
-			nU = 1 + r.Intn(14)
-		}
-		var uni []uSeries
-		seen := map[string]bool{}
-		cid := 0
-		for len(uni) < nU {
-			var ls []pu.Lbl
-			ls = append(ls, pu.Lbl{"a", common.Pick(r, "1", "2", "3", "10")})
-			if r.Intn(2) == 0 {
-				ls = append(ls, pu.Lbl{"b", common.Pick(r, "x", "y", "")})
-			}
-			if r.Intn(6) == 0 {
-				ls = append(ls, pu.Lbl{"z", common.Pick(r, "1", "2")})
-			}
-			if r.Intn(8) == 0 {
-				ls = append(ls, pu.Lbl{"__name__", "up"})
-			}
-			// drop empty-valued labels (a store never sends them)
-			var ls2 []pu.Lbl
-			for _, l := range ls {
-				if l[1] != "" {
-					ls2 = append(ls2, l)
-				}
-			}
-			k := labelsKey(ls2)
-			if seen[k] {
-				if r.Intn(4) == 0 {
-					break
-				}
-				continue
-			}
-			seen[k] = true
-			u := uSeries{labels: ls2}
-			nc := r.Intn(5)
-			t := common.Between(r, 0, 50)
-			for q := 0; q < nc; q++ {
-				cid++
-				d := common.Between(r, 1, 10)
-				switch {
-				case r.Intn(6) == 0:
-					u.chunks = append(u.chunks, mkAggr(cid, t, t+d, 1+r.Intn(5)))
-				default:
-					u.chunks = append(u.chunks, mkRaw(cid, t, t+d, r.Intn(3) == 0))
-				}
-				switch r.Intn(4) {
-				case 0: // overlapping / same start
-				case 1:
-					t += d
-				default:
-					t += d + 1
-				}
-			}
-			uni = append(uni, u)
-		}
-		nStores := 1 + r.Intn(5)
-		unsorted := r.Intn(12) == 0
-		for si := 0; si < nStores; si++ {
-			st := pu.StoreIn{Name: fmt.Sprintf("store%d", si), Supports: r.Intn(4) != 0}
-			replica := fmt.Sprint(si % 2)
-			type item struct {
-				labels []pu.Lbl
-				chunks []pu.ChunkIn
-			}
-			var items []item
-			for _, u := range uni {
-				if r.Intn(3) == 0 {
-					continue
-				}
-				reps := []string{replica}
-				if useReplica && r.Intn(4) == 0 {
-					reps = []string{"0", "1"} // the store holds both replicas
-				}
-				for _, rep := range reps {
-					ls := append([]pu.Lbl(nil), u.labels...)
-					if useReplica && !(st.Supports && len(in.WRL) > 0) {
-						ls = append(ls, pu.Lbl{"r", rep})
-					}
-					// subset of the chunks (duplicates across stores), split over 1..3 frames
-					var cs []pu.ChunkIn
-					for _, ch := range u.chunks {
-						if r.Intn(4) != 0 {
-							cs = append(cs, ch)
-						}
-					}
-					parts := 1
-					if r.Intn(3) == 0 {
-						parts = 2 + r.Intn(2)
-					}
-					for p := 0; p < parts; p++ {
-						lo, hi := p*len(cs)/parts, (p+1)*len(cs)/parts
-						items = append(items, item{ls, append([]pu.ChunkIn(nil), cs[lo:hi]...)})
-					}
-				}
-			}
-			sort.SliceStable(items, func(a, b int) bool { return labelsKey(items[a].labels) < labelsKey(items[b].labels) })
-			if unsorted && len(items) >= 2 && r.Intn(2) == 0 {
-				a, b := r.Intn(len(items)), r.Intn(len(items))
-				items[a], items[b] = items[b], items[a]
-			}
-			// frames: single series or batches; occasional warnings
-			for k := 0; k < len(items); {
-				if r.Intn(10) == 0 {
-					st.Frames = append(st.Frames, pu.FrameIn{Kind: "warn", Warn: fmt.Sprintf("w%d-%d%s", si, k, strings.Repeat("!", r.Intn(3)))})
-				}
-				if r.Intn(3) == 0 {
-					m := 1 + r.Intn(4)
-					if k+m > len(items) {
-						m = len(items) - k
-					}
-					f := pu.FrameIn{Kind: "batch"}
-					for _, it := range items[k : k+m] {
-						f.Series = append(f.Series, pu.SeriesIn{Labels: it.labels, Chunks: it.chunks})
-					}
-					st.Frames = append(st.Frames, f)
-					k += m
-				} else {
-					st.Frames = append(st.Frames, pu.FrameIn{Kind: "series", Series: []pu.SeriesIn{{Labels: items[k].labels, Chunks: items[k].chunks}}})
-					k++
-				}
-			}
-			if r.Intn(15) == 0 {
-				st.Frames = append(st.Frames, pu.FrameIn{Kind: "warn", Warn: fmt.Sprintf("end%d", si)})
-			}
-			in.Stores = append(in.Stores, st)
-		}
-		out = append(out, in)
+		out = append(out, pu.GenBase(r, tier == "thorough"))
 	}
 	return out
 }
